@@ -380,7 +380,7 @@ def raw_of(v, f):
 def allones_with_missing(rows0, fields0, sel):
     """Is there a numeric/code column whose selected values are the field's all-ones pattern in some subsets and missing in
     all the others?  (Only a compressed source can hold such a value: minimum + increment.)"""
-    if not sel or any(len(rows0[i]) != len(fields0[i]) for i in sel):
+    if not sel or sel[-1] >= len(rows0) or sel[-1] >= len(fields0) or any(len(rows0[i]) != len(fields0[i]) for i in sel):
         return False
     f0 = fields0[sel[0]]
     for c, f in enumerate(f0):
